@@ -217,8 +217,8 @@ fn deviation(original: &J, clause: &str, diff: &str) -> Option<&'static str> {
 pub fn run(tier: Tier, replay: Option<&J>) -> i32 {
     let start = Instant::now();
     let depth = match tier {
-        Tier::Quick => 2,
-        Tier::Thorough => 3,
+        Tier::Quick => 3,
+        Tier::Thorough => 4,
     };
     let bases = base_texts(depth);
     let only = replay.and_then(|r| r["base_idx"].as_u64()).map(|x| x as usize);
